@@ -1,6 +1,7 @@
 package main
 
 import (
+	"encoding/json"
 	"fmt"
 	"math/rand"
 	"sort"
@@ -10,6 +11,7 @@ import (
 
 	"github.com/openconfig/gnmi/cache"
 	"github.com/openconfig/gnmi/ctree"
+	"github.com/openconfig/gnmi/latency"
 	"github.com/openconfig/gnmi/metadata"
 	"google.golang.org/protobuf/proto"
 
@@ -25,6 +27,7 @@ type caComp struct {
 	notis  map[string]*pb.Notification // same token => same object (callers re-sending an object)
 	now    int64
 	ed     bool
+	latNames []string // latency metadata names the current cache registered (package-level state of `metadata`)
 }
 
 // scriptedNow is the clock reading handed to cache.Now (set from the op line).
@@ -138,6 +141,9 @@ func (c *caComp) Run(args []string) string {
 	}
 	c.events = nil
 	atoi := func(s string) int64 { v, _ := strconv.ParseInt(s, 10, 64); return v }
+	// latency.Now and cache.Now are two package variables: both read the one scripted clock
+	// (the lt component installs its own latency.Now per operation)
+	latency.Now = func() time.Time { return time.Unix(0, scriptedNow) }
 	switch args[0] {
 	case "par":
 		return caPar(args)
@@ -170,7 +176,37 @@ func (c *caComp) Run(args []string) string {
 		if len(args) > 4 && args[4] != "-" {
 			opts = append(opts, cache.WithServerName(decStr(args[4])))
 		}
+		// the latency names an earlier cache registered are package-level state as well
+		for _, name := range c.latNames {
+			metadata.UnregisterIntValue(name)
+		}
+		c.latNames = nil
+		if len(args) > 5 && args[5] != "-" {
+			// <period>:<precision>:<w1>,<w2>,... in ns: cache.WithLatencyWindows / WithAvgLatencyPrecision
+			f := strings.Split(args[5], ":")
+			if len(f) == 3 {
+				var ws []string
+				if f[2] != "-" {
+					for _, w := range strings.Split(f[2], ",") {
+						ws = append(ws, time.Duration(atoi(w)).String())
+					}
+				}
+				// an error (a window that is not a multiple of the period) leaves the option out, as
+				// gnmi_collector's caller would have to; period 0 returns a nil option
+				if o, err := cache.WithLatencyWindows(ws, time.Duration(atoi(f[0]))); err == nil && o != nil {
+					opts = append(opts, o)
+				}
+				if p := atoi(f[1]); p != 0 {
+					opts = append(opts, cache.WithAvgLatencyPrecision(time.Duration(p)))
+				}
+			}
+		}
 		c.c = cache.New(nil, opts...)
+		for _, w := range c.c.LatencyWindows() {
+			for _, typ := range []latency.StatType{latency.Avg, latency.Max, latency.Min} {
+				c.latNames = append(c.latNames, latency.MetadataName(w, typ))
+			}
+		}
 		c.c.SetClient(c.record)
 		c.view = map[string]string{}
 		c.pool = newPool()
@@ -226,6 +262,9 @@ func (c *caComp) Run(args []string) string {
 		scriptedNow = atoi(args[1])
 		c.c.UpdateMetadata()
 		return sortedBracket(c.events)
+	case "updsize":
+		c.c.UpdateSize()
+		return "ok"
 	case "query":
 		var out []string
 		err := c.c.Query(decStr(args[1]), decPath(args[2]), func(p []string, l *ctree.Leaf, v interface{}) error {
@@ -323,6 +362,31 @@ type caGen struct {
 	org     string // the origin name of this sequence: "oc", or the collector's default "openconfig" (seeded change c06_seed7 special-cased it)
 	allowPO bool // path-level origins allowed (outside the cache's stated contract: no replay monitor)
 	sn      string // server name the cache is created with ("" = none; profile c14 only)
+	lw      string // latency windows token of the `new` line ("" = none; profile c15 only)
+	lwUnit  int64  // the update period of those windows: refreshes are paced by it
+	pool    *pbPool // scratch protos for the json sizes on the op line (profile c15 only)
+}
+
+// jsonSizes: "<prefix>,<update 1>,..." = len(json.Marshal(m)) of the prefix and update messages of
+// n as the cache will store them (-1: json.Marshal fails, e.g. a NaN float); Target.updateSize sums
+// len(json.Marshal(notification)) over the stored leaves, and the driver frames these lengths
+func (g *caGen) jsonSizes(n gNoti) string {
+	if g.pool == nil {
+		g.pool = newPool()
+	}
+	m := n.proto(g.pool)
+	sz := func(v interface{}) string {
+		b, err := json.Marshal(v)
+		if err != nil {
+			return "-1"
+		}
+		return strconv.Itoa(len(b))
+	}
+	out := []string{sz(m.GetPrefix())}
+	for _, u := range m.GetUpdate() {
+		out = append(out, sz(u))
+	}
+	return strings.Join(out, ",")
 }
 
 type caLeaf struct {
@@ -519,6 +583,10 @@ func (g *caGen) genDeletePath(target string) (gPath, gPath) {
 
 func (g *caGen) notiOp(n gNoti) {
 	g.sent = append(g.sent, n)
+	if genProfile == "c15" {
+		g.emit("upd %d %s %s", g.now, n.token(), g.jsonSizes(n))
+		return
+	}
 	g.emit("upd %d %s", g.now, n.token())
 }
 
@@ -541,6 +609,22 @@ func (g *caGen) selector() int {
 		if r.Intn(3) == 0 {
 			return r.Intn(50) // single updates and deletes
 		}
+	case "c15":
+		// latency wiring and UpdateSize: more sync marks (so that updates arrive before and after
+		// them), refreshes, size computations, metadata-addressed updates (meta/sync true/false
+		// written by the target included) and same-value re-sends (suppressed)
+		switch r.Intn(12) {
+		case 0:
+			return 82 // sync
+		case 1:
+			return 95 // updmeta
+		case 2:
+			return 100 // updsize
+		case 3:
+			return 101 // meta/sync written by the target
+		case 4:
+			return 102 // re-send the last value of a leaf at a later timestamp (suppressed when event-driven)
+		}
 	}
 	return x
 }
@@ -550,6 +634,38 @@ func (g *caGen) step() {
 	g.tick()
 	t := g.target()
 	switch x := g.selector(); {
+	case x == 100: // (c15) UpdateSize, then look at the metadata object
+		g.emit("updsize")
+		g.emit("meta %s", encStr(g.targets[r.Intn(len(g.targets))]))
+	case x == 101: // (c15) the target writes meta/sync itself, alone or inside a multi-update notification
+		v := gVal{kind: "b", b: r.Intn(3) != 0}
+		mp := gPath{elem: []gElem{{name: "meta"}, {name: "sync"}}}
+		n := gNoti{ts: g.now, prefix: gPath{target: t}, upd: []gUpd{{path: mp, val: v}}}
+		if r.Intn(2) == 0 {
+			l := g.leaves[r.Intn(len(g.leaves))]
+			u := gUpd{path: gPath{elem: l.elems}, val: genVal(r)}
+			if r.Intn(2) == 0 {
+				n.upd = append(n.upd, u)
+			} else {
+				n.upd = append([]gUpd{u}, n.upd...)
+			}
+		}
+		g.notiOp(n)
+	case x == 102: // (c15) same value again, later timestamp
+		var cand []gNoti
+		for _, n := range g.sent {
+			if len(n.upd) == 1 && len(n.del) == 0 && !n.atomic {
+				cand = append(cand, n)
+			}
+		}
+		if len(cand) > 0 {
+			n := cand[r.Intn(len(cand))]
+			n.ts = g.now - int64(r.Intn(5))
+			if n.ts < 1 {
+				n.ts = 1
+			}
+			g.notiOp(n)
+		}
 	case x < 38: // single update
 		pre, u, key := g.genUpdate(t)
 		ts := g.pickTS(key)
@@ -667,7 +783,15 @@ func (g *caGen) step() {
 			g.emit("add %s", encStr(t))
 		}
 	case x < 98:
+		if g.lwUnit > 0 && r.Intn(3) != 0 {
+			// refreshes paced by the update period, as the collector's ticker does (the windows only
+			// publish once a full window of refreshes has gone by)
+			g.now += g.lwUnit * int64(1+r.Intn(3))
+		}
 		g.emit("updmeta %d", g.now)
+		if g.lwUnit > 0 && r.Intn(2) == 0 {
+			g.emit("meta %s", encStr(g.targets[r.Intn(len(g.targets))]))
+		}
 	default:
 		g.emit("has %s", encStr(t))
 	}
@@ -788,7 +912,40 @@ func (c *caComp) Gen(r *rand.Rand, tier string) []string {
 			excl = "serverName"
 		}
 	}
-	if g.sn != "" {
+	if genProfile == "c15" {
+		// (C15) two sequences in three: a cache created WithLatencyWindows (1-3 windows, multiples of
+		// the update period; now and then one that is not - the option then fails and is left out -, a
+		// duplicate, period 0 = disabled) and sometimes WithAvgLatencyPrecision.  The extra draws are
+		// made for this profile only.
+		if r.Intn(3) != 0 {
+			period := []int64{10, 20, 50}[r.Intn(3)]
+			var ws []string
+			for k := 1 + r.Intn(3); k > 0; k-- {
+				ws = append(ws, strconv.FormatInt(period*int64(1+r.Intn(6)), 10))
+			}
+			switch r.Intn(12) {
+			case 0:
+				ws = append(ws, strconv.FormatInt(period+1, 10)) // not a multiple
+			case 1:
+				ws = append(ws, ws[0]) // the same window twice
+			case 2:
+				period = 0
+			}
+			prec := []int64{0, 0, 1, 4, 1000}[r.Intn(5)]
+			g.lw = fmt.Sprintf("%d:%d:%s", period, prec, strings.Join(ws, ","))
+			g.lwUnit = period
+			if excl == "-" && r.Intn(8) == 0 {
+				excl = "sync"
+				if len(ws) > 0 {
+					w, _ := strconv.ParseInt(ws[0], 10, 64)
+					excl = latency.MetadataName(time.Duration(w), latency.Max)
+				}
+			}
+		}
+	}
+	if g.lw != "" {
+		g.emit("new %d %s %s - %s", g.thr, ed, excl, g.lw)
+	} else if g.sn != "" {
 		g.emit("new %d %s %s %s", g.thr, ed, excl, encStr(g.sn))
 	} else {
 		g.emit("new %d %s %s", g.thr, ed, excl)
@@ -803,6 +960,9 @@ func (c *caComp) Gen(r *rand.Rand, tier string) []string {
 	n := 8 + r.Intn(40)
 	for i := 0; i < n; i++ {
 		g.step()
+	}
+	if genProfile == "c15" {
+		g.emit("updsize")
 	}
 	g.emit("updmeta %d", g.tick())
 	for _, t := range g.targets {
